@@ -111,7 +111,12 @@ func (p *Prog) detectRenames(all map[*ssa.Function]bool) []Renamed {
 	for _, b := range missing {
 		cs := candOf[b]
 		if len(cs) == 1 && len(claimed[cs[0]]) == 1 {
-			continue // handled below (unique by shape)
+			// unique by shape — but a function that was REPLACED by another one of the same shape (getBaseSeed removed,
+			// generateBaseSeed added) is not a rename: what the two do must also be alike
+			if baseFP[b] != nil && score(b, cs[0]) < 0.5 {
+				candOf[b] = nil
+			}
+			continue
 		}
 		if len(cs) == 0 || baseFP[b] == nil {
 			continue
